@@ -3,28 +3,28 @@
 # 1. confirms the mutant in a scratch worktree: demo passes clean; with the patch: builds, suite passes, demo fails
 # 2. applies it to /repo, runs ./check <PROP>, undoes it
 export GOFLAGS=-mod=mod GOPROXY=off GOSUMDB=off GOTOOLCHAIN=local
-P=$1; D=$(realpath $2); TIER=${3:-quick}
+P=$1; D=$(realpath $2); TIER=${3:-quick}; PKG=${4:-.}
 WT=/tmp/mut/eval-$$
 git -C /repo worktree add -q --detach $WT HEAD || exit 2
 cleanup() { git -C /repo worktree remove --force $WT >/dev/null 2>&1; }
 trap cleanup EXIT
 cd $WT
-for f in $D/*_test.go; do cp $f $WT/zz_$(basename $f); done
+for f in $D/*_test.go; do cp $f $WT/$PKG/zz_$(basename $f); done
 echo "--- clean tree: demo"
-go test -vet=off -count=1 -run 'Test(C[0-9]+|Mut)' . 2>&1 | tail -3
+go test -vet=off -count=1 -run 'Demo|Mut|TestC[0-9]' ./$PKG 2>&1 | tail -3
 CLEAN=${PIPESTATUS[0]}
-rm -f $WT/zz_*_test.go
+rm -f $WT/$PKG/zz_*_test.go
 git apply $D/patch.diff || { echo "PATCH DOES NOT APPLY"; exit 2; }
 echo "--- patched: build + suite"
 go build ./... && go build -tags verif ./... && go test -vet=off -count=1 ./... 2>&1 | grep -v 'no test files' | grep -v '^ok' | tail -5
 SUITE=${PIPESTATUS[0]}
-for f in $D/*_test.go; do cp $f $WT/zz_$(basename $f); done
+for f in $D/*_test.go; do cp $f $WT/$PKG/zz_$(basename $f); done
 echo "--- patched: demo"
-go test -vet=off -count=1 -run 'Test(C[0-9]+|Mut)' . 2>&1 | tail -4
+go test -vet=off -count=1 -run 'Demo|Mut|TestC[0-9]' ./$PKG 2>&1 | tail -4
 echo "clean_demo_rc=$CLEAN"
 cd /verif
 if [ "$TIER" != "none" ]; then
-  rm -f $WT/zz_*_test.go
+  rm -f $WT/$PKG/zz_*_test.go
   echo "--- ./check $P --tier $TIER on the mutated tree $WT"
   VERIF_REPO=$WT ./check $P --tier $TIER 2>&1 | grep -v '^  TLC\|^  random\|^  replay\|^  pool' | tail -6 | cut -c1-300
   echo "check_rc=${PIPESTATUS[0]}"
